@@ -258,7 +258,10 @@ def sc_from_snapshot(cfg, snap, age_prog, age_thumb, age_seed, age_steps, k):
         inst.reset()
         for _ in range(age_steps):
             inst.step()
+    keep = getattr(inst.cpu.registers, 'it_state_restored', None)
     observe.restore(inst.cpu, snap)
+    if keep is not None:
+        inst.cpu.registers.it_state_restored = keep          # non-architectural bookkeeping is NOT taken from the snapshot
     return [inst.step() for _ in range(k)]
 
 
@@ -308,6 +311,10 @@ def aged_steps(spec, res, bump, report, rng):
             b = Inst(cfg, prog, thumb, regseed)
             b.cpu = copy.deepcopy(templates[cfg])
             observe.restore(b.cpu, pre)
+            # bookkeeping that is not architectural state keeps the never-stepped instance's value: if the running instance
+            # carries something else across a step boundary, that is exactly the history this scenario looks for
+            if hasattr(b.cpu.registers, 'it_state_restored'):
+                b.cpu.registers.it_state_restored = templates[cfg].registers.it_state_restored
             tb = b.step()
             res['evaluations'] += 1
             bump('aged_steps_compared')
